@@ -81,7 +81,7 @@ func Ob_C09_UpdatePermission_Unit() {
 
 // C13 I-M1 / C05: RollbackMeta of a never-committed model removes the model and its alias entry; of a
 // committed model restores the last committed version.
-func Ob_C05C13_RollbackMeta() {
+func Ob_C05C11C13_RollbackMeta() {
 	w := NewWorld()
 	dataId := sym.String("dataId")
 	sym.SetBound("Metadata.Orders", 2) // a renewed model lists more orders than commits
